@@ -27,7 +27,25 @@ def run(tier, seed):
     if not rep.violations and os.path.exists(trace):
         os.remove(trace)
     dom_viewer(rep, quick, seed)
+    xml_option_matrix(rep, quick, seed)
     return rep.finish()
+
+
+def xml_option_matrix(rep, quick, seed):
+    """XmlFormat.tla over all 4 x 4 Encode/DecodePropertyBehavior pairings (C02 covers the pairings that keep a
+    property): WriteExpected / ReadExpected say when ErrorOnUnknown must fail, XmlStored / kept() what
+    IgnoreUnknown drops."""
+    import xml_checks
+    from bin_checks import export_db, validate_cases, cleanup
+    raw = os.path.join(OUT, "extra_xml_matrix.ndjson")
+    rbxv(["xml-cases", "--seed", seed + 5, "--count", 300 if quick else 6000, "--max-instances", 5, "--mode", "matrix"], stdout_path=raw)
+    tok = raw + ".tok"
+    xml_checks.tokenise(raw, tok)
+    n, fails = validate_cases("XmlFormatTrace", tok, {"DBJSON": export_db(), "CLAUSES": "roundtrip"})
+    xml_checks.report(rep, "EXTRA", fails, xml_checks.C02_CLAUSES)
+    log("[extras] XML option matrix: %d cases (16 pairings) judged by XmlFormat.tla" % n)
+    cleanup(raw, rep)
+    cleanup(tok, rep)
 
 
 def dom_viewer(rep, quick, seed):
